@@ -343,6 +343,7 @@ def count_shapes(cls, max_dev, cap=10**6, **opts):
 # ---------------------------------------------------------------------------------------
 MAX_CONCRETE_LEN = 1 << 22
 FILL_CLASS = {}  # payload root id -> representative id (payloads the model makes equal get equal content)
+FILL_LITERAL = {}  # representative id -> bytes: payloads the model makes equal to a literal of the code under test
 
 
 def set_payload_classes(c, model):
@@ -360,6 +361,9 @@ def set_payload_classes(c, model):
             parent[find(j)] = find(i)
     for x in list(parent):
         FILL_CLASS[x] = find(x)
+    FILL_LITERAL.clear()
+    for lit, blob in (c.notes.get("lit_blobs") or {}).items():
+        FILL_LITERAL[find(blob.root.id)] = lit.encode() if isinstance(lit, str) else bytes(lit)
     return FILL_CLASS
 
 
@@ -390,8 +394,15 @@ def concretise(x, model):
                 if n > MAX_CONCRETE_LEN:
                     raise TooLarge(n)
                 rid = FILL_CLASS.get(it.root.id, it.root.id)
+                lit = FILL_LITERAL.get(rid)
+                if lit is not None and len(lit) == n and type(it.off) is int and it.off == 0:
+                    out.extend(lit)
+                    continue
                 fill = (0x61 + (rid % 26)) if it.kind == "str" else (0x41 + (rid % 26))
-                out.extend(bytes([fill]) * n)
+                content = bytes([fill]) * n
+                if content in FILL_LITERAL.values():  # declared different from that literal: use other content
+                    content = bytes([fill + 1 if fill not in (0x7A, 0x5A) else fill - 1]) * n
+                out.extend(content)
             elif type(it) is SymInt:
                 out.append(model.eval(it.e, model_completion=True).as_long() & 0xFF)
             else:
